@@ -106,6 +106,7 @@ type smRunner struct {
 	nxPassed bool
 	nxActive bool // the seat was still active when the newcomer joined AND it was occupied at the last successful Next (vacated since)
 	occAtNext []bool // occupancy at the last successful Next
+	lastDealer int   // ghost: the dealer's seat after the last successful Next (-1: none, or a Next has failed since)
 }
 
 func (r *smRunner) newSM(max int) {
@@ -116,6 +117,7 @@ func (r *smRunner) newSM(max int) {
 	r.joins, r.leave = 0, 0
 	r.nx = -1
 	r.occAtNext = nil
+	r.lastDealer = -1
 	r.o.Emit(fmt.Sprintf("sm new %d", max), smObs(r.m, "none", "-"))
 }
 
@@ -290,8 +292,12 @@ func (r *smRunner) monitor(f []string, pre, post *smSnap, err error, ret string)
 				r.V("C17", "button_next", fmt.Sprintf("%d players could play but Next() failed: %v", len(P), err))
 			} else {
 				want := -1
-				start := pre.dealer + 1
-				if pre.dealer < 0 {
+				prevDealer := pre.dealer
+				if r.lastDealer >= 0 {
+					prevDealer = r.lastDealer // "the previous dealer" is a seat, whoever sits there now
+				}
+				start := prevDealer + 1
+				if prevDealer < 0 {
 					start = 0
 				}
 				for k := 0; k < max; k++ {
@@ -356,6 +362,13 @@ func (r *smRunner) monitor(f []string, pre, post *smSnap, err error, ret string)
 		}
 	}
 
+	if f[0] == "next" {
+		if err == nil {
+			r.lastDealer = post.dealer
+		} else {
+			r.lastDealer = -1
+		}
+	}
 	if f[0] == "next" && err == nil {
 		r.occAtNext = make([]bool, len(post.seats))
 		for i, s := range post.seats {
